@@ -21,7 +21,10 @@ def returns_match(repo, res, rule, fullname, accepted, meaning, setter=False, cl
     want = {nf_text(a) for a in accepted}
     for e, rnode in inl.returns:
         got = nf(e)
-        ok = got in want
+        raw = nf(rnode.value)
+        ok = got in want or raw in want
+        if raw in want:
+            got = raw
         res.oblige(rule, f'{f.qualname} returns {meaning}', ok, nontrivial=True,
                    sample={'function': fullname, 'returned_nf': got[:200], 'accepted': sorted(want)[:3]})
         if not ok:
